@@ -1,7 +1,7 @@
 (** C04 — mass leaves only via fixation/loss.  Only statements; every proof is [exact <lemma>]. *)
 From Coq Require Import Reals List Lra Lia Bool.
 From Dadi Require Import Base.Num Base.NumR Model.Tridiag Model.Scheme Model.NDSweep
-  Proofs.TridiagProofs Proofs.SchemeProofs Proofs.MassBalance Proofs.Drivers Proofs.NDLines Proofs.NDSweepProofs Proofs.NDWeights Proofs.IntegrateLinear Proofs.IntegrateRescale Proofs.FrozenMarginal Proofs.FrozenStep.
+  Proofs.TridiagProofs Proofs.SchemeProofs Proofs.MassBalance Proofs.Drivers Proofs.NDLines Proofs.NDSweepProofs Proofs.NDWeights Proofs.IntegrateLinear Proofs.IntegrateRescale Proofs.FrozenMarginal Proofs.FrozenStep Proofs.TotalMass.
 Import ListNotations.
 Local Open Scope R_scope.
 
@@ -94,6 +94,31 @@ Theorem C04_frozen_marginal_exact : forall shape grids pops f i pf dj tf,
   marginal_at shape grids f i res = marginal_at shape grids f i phi.
 Proof. exact integrate_preserves_frozen_marginal. Qed.
 Print Assumptions C04_frozen_marginal_exact.
+
+(** total trapezoid mass of a d-dimensional density: a sweep of population k changes it only by dt times the
+    outflow on its lines, and the outflow coefficients vanish on every line that is not an all-0 / all-1 corner line *)
+Theorem C04_sweep_total_mass_balance : forall shape grids pops k p, (k < length shape)%nat -> nth_error pops k = Some p ->
+  length (nth k grids []) = ax_len shape k -> (2 <= ax_len shape k)%nat ->
+  (forall j, (j < length (nth k grids []) - 1)%nat -> 0 < dx (nth k grids []) j) ->
+  forall dt, dt <> 0 -> forall dj phi,
+  (forall o q, (o < ax_outer shape k)%nat -> (q < ax_inner shape k)%nat ->
+     nonzero (all_pivots (line_rows (nth k grids []) (Vfunc_beta (p_nu p) (p_beta p)) (Mline shape grids k p o q) (p_nu p)
+                                    (corner0 shape grids k o q) (corner1 shape grids k o q) dt dj (get_line shape k phi o q)))) ->
+  total_mass shape grids phi =
+  total_mass shape grids (sweep shape grids pops k dt dj phi)
+  + dt * rsum (ax_outer shape k) (fun o => rsum (ax_inner shape k) (fun q =>
+      Wother shape grids k o q * (out0 (nth k grids []) (Mline shape grids k p o q) (p_nu p) (corner0 shape grids k o q)
+                      * nthF (get_line shape k (sweep shape grids pops k dt dj phi) o q) 0
+                    + out1 (nth k grids []) (Mline shape grids k p o q) (p_nu p) (corner1 shape grids k o q)
+                      * nthF (get_line shape k (sweep shape grids pops k dt dj phi) o q) (length (nth k grids []) - 1)))).
+Proof. exact sweep_total_mass_balance. Qed.
+Theorem C04_outflow_only_on_corner_lines : forall shape grids k p,
+  length (nth k grids []) = ax_len shape k -> (2 <= ax_len shape k)%nat ->
+  (forall j, (j < length (nth k grids []) - 1)%nat -> 0 < dx (nth k grids []) j) ->
+  forall o q, corner0 shape grids k o q = false -> corner1 shape grids k o q = false ->
+  out0 (nth k grids []) (Mline shape grids k p o q) (p_nu p) (corner0 shape grids k o q) = 0 /\
+  out1 (nth k grids []) (Mline shape grids k p o q) (p_nu p) (corner1 shape grids k o q) = 0.
+Proof. exact outflow_only_on_corner_lines. Qed.
 
 (** zero-duration integration returns the density unchanged (constant and time-dependent drivers) *)
 Theorem C04_zero_duration_identity : forall fuel shape grids (pops : list (@pop R)) theta0 tf use_delj t phi,
